@@ -9,6 +9,6 @@ CONSTANTS
   Cnt <- CntLen5
   NCnt <- NCntLen5
   Obs <- ObsEmit
-INVARIANTS TypeOK QueriesInRange CmpLaw SpliceLaw SubLaw ShapeLaw
+INVARIANTS TypeOK QueriesInRange CmpLaw SpliceLaw SubLaw HugeLaw ShapeLaw
 PROPERTY Independence
 CHECK_DEADLOCK FALSE
